@@ -143,6 +143,8 @@ struct Runtime {
     int pct_low = 0;
     // user hook called at every step (family-specific monitors), optional
     void (*step_hook)() = nullptr;
+    // called whenever a fiber acquires a modelled mutex (after the acquisition), optional
+    void (*acquire_hook)(MutexCore*, int fiber, bool shared) = nullptr;
 
     uint8_t sched_byte() { return sched_pos < spec->bytes.size() ? spec->bytes[sched_pos++] : 0; }
     uint8_t aux_byte() { return aux_pos < spec->aux.size() ? spec->aux[aux_pos++] : 0; }
